@@ -127,14 +127,16 @@ def main():
         rc1, out1 = sh('{} demo.py'.format(PY), cwd=wt, timeout=600)
         confirm['demo_with_change_rc'] = rc1
         confirm['demo_with_change_tail'] = out1.strip()[-400:]
-        sh('git stash -q', cwd=wt)
+        # (not `git stash`: the stash is shared by all worktrees)
+        sh('git diff -- pico8 > .pv-change.patch && git apply -R '
+           '.pv-change.patch', cwd=wt)
         try:
             rc2, out2 = sh('{} demo.py'.format(PY), cwd=wt, timeout=600)
         finally:
-            sh('git stash pop -q', cwd=wt)
+            sh('git apply .pv-change.patch && rm -f .pv-change.patch', cwd=wt)
         confirm['demo_without_change_rc'] = rc2
         ran += ['/venv/bin/python demo.py   (with the change)',
-                'git stash; /venv/bin/python demo.py; git stash pop   '
+                'git apply -R <diff>; /venv/bin/python demo.py; git apply <diff>   '
                 '(without the change)']
         confirm['confirmed'] = ('278 passed' in confirm['suite_with_change']
                                 and rc1 != 0 and rc2 == 0)
